@@ -11,7 +11,7 @@ headers_more for the kinds below, field lattices built through the Lean builder 
 every bit field, every table row), raw lattices outside the specification, and damaged files (every truncation
 of the header region, bad magics, flipped bytes, random bytes).
 """
-import io, os, struct, importlib, zlib
+import io, os, re, struct, importlib, zlib
 from vcheck import hx, parse_fields
 from guards import timed
 
@@ -90,6 +90,12 @@ class Fmt(object):
         """-> list of (label, driver build request, suffix bytes[, prefix bytes])"""
         return []
 
+    theorems = {}          # build kind -> name of the C05 decode theorem whose instances `infoa op=expect` evaluates
+
+    def expect_line(self, build_line, rest):
+        """the `infoa op=expect` request for a header built by `build_line` that is followed by the bytes `rest`"""
+        return build_line.replace("op=build", "op=expect", 1) + " suffix=" + hx(rest)
+
     def extra_builder_checks(self, rng, scale):
         """-> list of (driver build request, bytes an independent builder of headers_more gives, case dict with 'fmt')"""
         return []
@@ -151,6 +157,7 @@ class Fmt(object):
 # WavPack
 
 class WavPackFmt(Fmt):
+    theorems = {'WavPack': 'wavpack_info_decodes_partial'}
     name = "WavPack"
     hm_kinds = ("WavPack",)
     info_path = "mutagen.wavpack.WavPackInfo"
@@ -159,10 +166,11 @@ class WavPackFmt(Fmt):
              ("bits_per_sample", "bits_per_sample", "int"), ("length", "length", "ratio"))
 
     @staticmethod
-    def line(version, total, bps, mono, modelow, shiftmag, ri, modehigh, blocks):
-        return ("infoa op=build kind=WavPack version=%d total=%d bps=%d mono=%d modelow=%d shiftmag=%d ri=%d modehigh=%d bs=%s bc=%s bp=%s" % (
+    def line(version, total, bps, mono, modelow, shiftmag, ri, modehigh, blocks, fi=0):
+        """blocks: (block_samples, crc, sub-block bytes); fi: index of the first sample of the first block"""
+        return ("infoa op=build kind=WavPack version=%d total=%d bps=%d mono=%d modelow=%d shiftmag=%d ri=%d modehigh=%d bs=%s bc=%s bp=%s fi=%d" % (
             version, total, bps, mono, modelow, shiftmag, ri, modehigh, ",".join(str(b[0]) for b in blocks),
-            ",".join(str(b[1]) for b in blocks), ",".join(hx(b[2]) for b in blocks)))
+            ",".join(str(b[1]) for b in blocks), ",".join(hx(b[2]) for b in blocks), fi))
 
     def spec_line(self, kind, p):
         H = hm()
@@ -177,8 +185,17 @@ class WavPackFmt(Fmt):
     def lattice(self, rng, scale):
         out = []
 
-        def add(label, version=0x407, total=1000, bps=2, mono=0, modelow=2, shiftmag=0, ri=9, modehigh=0, blocks=None, suffix=b""):
-            out.append((label, self.line(version, total, bps, mono, modelow, shiftmag, ri, modehigh, blocks or [(22050, 7, b"\0\1ab")]), suffix))
+        def add(label, version=0x407, total=1000, bps=2, mono=0, modelow=2, shiftmag=0, ri=9, modehigh=0, blocks=None, suffix=b"", fi=0):
+            out.append((label, self.line(version, total, bps, mono, modelow, shiftmag, ri, modehigh, blocks or [(22050, 7, b"\0\1ab")], fi), suffix))
+
+        # a stream cut out of a longer one: the first block's index is not 0; the samples present are those of the blocks,
+        # whatever the header's total says (known or unknown)
+        for fi in (1, 22050, 2 ** 31, 2 ** 32 - 1, 2 ** 32 + 5, 2 ** 39, 2 ** 32, 2 ** 33):
+            for n in (1, 2, 3, 7):
+                blocks = [(rng.randrange(1, 1 << 16), rng.randrange(1 << 32), rbytes(rng, rng.choice([0, 2, 33]))) for _ in range(n)]
+                for total in (-1, 1000, 10 ** 6, 2 ** 32 - 2):
+                    for suffix in (b"", b"\0" * 31, b"APETAGEX" + b"\0" * 24):
+                        add("first-index", total=total, blocks=blocks, fi=fi, suffix=suffix, ri=rng.randrange(15), mono=rng.randrange(2))
 
         for ri in range(15):
             for mono in (0, 1):
@@ -243,6 +260,7 @@ class WavPackFmt(Fmt):
 # Monkey's Audio
 
 class MonkeysAudioFmt(Fmt):
+    theorems = {'APE': 'ape_info_decodes_partial', 'APE_OLD': 'apeold_info_decodes_partial'}
     name = "MonkeysAudio"
     hm_kinds = ("APE", "APE_OLD")
     info_path = "mutagen.monkeysaudio.MonkeysAudioInfo"
@@ -339,6 +357,7 @@ class MonkeysAudioFmt(Fmt):
 # OptimFROG
 
 class OptimFROGFmt(Fmt):
+    theorems = {'OptimFROG': 'ofr_info_decodes'}
     name = "OptimFROG"
     hm_kinds = ("OptimFROG",)
     info_path = "mutagen.optimfrog.OptimFROGInfo"
@@ -402,6 +421,7 @@ def syncsafe(n):
 
 
 class TrueAudioFmt(Fmt):
+    theorems = {'TTA': 'tta_info_decodes'}
     name = "TrueAudio"
     hm_kinds = ("TTA",)
     info_path = "mutagen.trueaudio.TrueAudioInfo"
@@ -465,6 +485,7 @@ class TrueAudioFmt(Fmt):
 # TAK
 
 class TakFmt(Fmt):
+    theorems = {'TAK': 'tak_info_decodes'}
     name = "TAK"
     hm_kinds = ("TAK",)
     info_path = "mutagen.tak.TAKInfo"
@@ -576,6 +597,7 @@ def mpc_packet(key, payload):
 
 
 class MusepackFmt(Fmt):
+    theorems = {'MPC_SV7': 'mpc_sv7_info_decodes_partial', 'MPC_SV8': 'mpc_sv8_info_decodes'}
     name = "Musepack"
     hm_kinds = ("MPC_SV7", "MPC_SV8")
     info_path = "mutagen.musepack.MusepackInfo"
@@ -808,6 +830,7 @@ def adif_file(bitrate=128000, copyright=None, btype=0, pces=None, payload=b"\x21
 
 
 class AacFmt(Fmt):
+    theorems = {'AAC_ADTS': 'aac_adts_info_decodes_partial / aac_adts_info_decodes_long_partial', 'ADIF': 'aac_adif_info_decodes_partial'}
     name = "AAC"
     hm_kinds = ("AAC_ADTS",)
     info_path = "mutagen.aac.AACInfo"
@@ -1080,6 +1103,7 @@ def eac3_head(strmtyp=0, sid=0, frmsiz=383, fscod=0, fscod2=0, nbc=3, acmod=2, l
 
 
 class Ac3Fmt(Fmt):
+    theorems = {'AC3': 'ac3_info_decodes_partial', 'EAC3': 'eac3_info_decodes_partial'}
     name = "AC3"
     hm_kinds = ("AC3", "EAC3")
     info_path = "mutagen.ac3.AC3Info"
@@ -1090,6 +1114,11 @@ class Ac3Fmt(Fmt):
     @staticmethod
     def o(v):
         return -1 if v is None else v
+
+    def expect_line(self, build_line, rest):
+        head, _, payload = build_line.rpartition(" payload=")
+        old = b"" if payload == "-" else bytes.fromhex(payload)
+        return head.replace("op=build", "op=expect", 1) + " payload=" + hx(old + rest)
 
     def line_ac3(self, crc1=0, fscod=0, fsc=20, bsid=8, bsmod=0, acmod=2, cmix=1, surmix=1, dsur=1, lfe=0, g1=(27, None, None, None),
                  g2=(27, None, None, None), cb=1, ob=1, tc1=None, tc2=None, addbsi=None, payload=b""):
@@ -1237,6 +1266,7 @@ def run_format(ctx, fmt, only=None):
     rng = ctx.rng
     scale = ctx.budget(1, 12)
     inputs = []        # (label, data, params or None)
+    expect_of = {}     # id(case dict of an input) -> (op=expect request, build line, build kind)
     # 1. headers_more cases + builder agreement
     build_reqs = []    # (line, expected bytes prefix, suffix len, case)
     for kind, fn in H._CASE_FUNCS:
@@ -1250,10 +1280,11 @@ def run_format(ctx, fmt, only=None):
                 # length below header + CRC): not an input
                 ctx.hist["hm:unbuildable:" + kind] += 1
                 continue
-            inputs.append(("hm:" + kind, data, dict(params, fmt=kind)))
+            case = dict(params, fmt=kind)
+            inputs.append(("hm:" + kind, data, case))
             line = fmt.spec_line(kind, params)
             if line is not None:
-                build_reqs.append((line, data, dict(params, fmt=kind)))
+                build_reqs.append((line, data, case))
     for line, data, case in fmt.extra_builder_checks(rng, scale):
         build_reqs.append((line, data, case))
     # 2. lattices through the Lean builder
@@ -1268,6 +1299,8 @@ def run_format(ctx, fmt, only=None):
         ctx.traces_validated += 1
         ctx.hist["infoa:%s:builder-vs-headers_more" % fmt.name] += 1
         got = bytes.fromhex(d.get("v", "")) if d.get("v", "-") != "-" else b""
+        if st == "ok" and data.startswith(got) and case["fmt"] in fmt.theorems:
+            expect_of[id(case)] = (fmt.expect_line(line, data[len(got):]), line, case["fmt"])
         want = fmt.spec_len(case["fmt"], case, data)
         if st != "ok" or not data.startswith(got) or (want is not None and len(got) != want) or (want is None and len(got) < 7):
             ctx.disagree("spec builder differs from headers_more (%s)" % fmt.name, case, model=ans[:300], impl=hx(data)[:300])
@@ -1280,8 +1313,11 @@ def run_format(ctx, fmt, only=None):
             ctx.disagree("spec builder refused (%s)" % fmt.name, dict(line=line), model=ans[:200])
             continue
         data = prefix + (bytes.fromhex(d["v"]) if d["v"] != "-" else b"") + suffix
-        inputs.append(("lat:%s:%s" % (label, "valid" if d.get("valid") == "1" else "outside"), data,
-                       dict(build=line, suffix=hx(suffix), prefix_len=len(prefix))))
+        case = dict(build=line, suffix=hx(suffix), prefix_len=len(prefix))
+        inputs.append(("lat:%s:%s" % (label, "valid" if d.get("valid") == "1" else "outside"), data, case))
+        m = re.search(r"kind=(\w+)", line)
+        if m and m.group(1) in fmt.theorems:
+            expect_of[id(case)] = (fmt.expect_line(line, suffix), line, m.group(1))
         if sample_valid is None and d.get("valid") == "1":
             sample_valid = data
     # 3. raw lattices and damaged files
@@ -1295,6 +1331,7 @@ def run_format(ctx, fmt, only=None):
             inputs.append(("damaged:" + label, data, None))
     # run the real code
     reqs = []
+    instances = []     # (op=expect request, build line, build kind, outcome kind, outcome, desc)
     for i, (label, data, case) in enumerate(inputs):
         desc = dict(case or {}, label=label, data=hx(data) if len(data) < 600 else "len=%d:%s…" % (len(data), hx(data[:200])))
         k, r = timed(lambda: fmt.info(data, case), 20)
@@ -1320,6 +1357,32 @@ def run_format(ctx, fmt, only=None):
         elif k != "ok" and (k2 == "ok" or classify(r2) != impl):
             ctx.disagree("%s: file class %s where the info class raised %s" % (fmt.name, "loaded" if k2 == "ok" else classify(r2), impl), desc)
         reqs.append(("infoa kind=%s data=%s%s" % (fmt.name, hx(data), fmt.parse_args(case)), k, r, impl, desc))
+        if case is not None and id(case) in expect_of:
+            instances.append(expect_of[id(case)] + (k, r, dict(desc, data=hx(data))))
+    # the real code against the instances of the decode theorems (Props/C05_Instances.lean): where every hypothesis of
+    # the theorem holds for the generated fields (hyp=1) the class has to report the theorem's right-hand side
+    answers = ctx.driver.ask([q[0] for q in instances]) if instances else []
+    for (eline, bline, bkind, k, r, desc), ans in zip(instances, answers):
+        st, d = parse_fields(ans)
+        if st != "ok" or "hyp" not in d:
+            ctx.disagree("%s: op=expect refused" % fmt.name, dict(line=eline[:300]), model=ans[:200])
+            continue
+        ctx.traces_validated += 1
+        ctx.hist["infoa:%s:theorem-instance:hyp=%s" % (fmt.name, d["hyp"])] += 1
+        if d["hyp"] != "1":
+            continue
+        thm = fmt.theorems.get(bkind, "?")
+        desc = dict(desc, build=bline, theorem=thm)
+        if k != "ok":
+            ctx.violation("%s:theorem-instance:rejected" % fmt.name,
+                          "%r raised where the header fields are valid and encode %s (theorem %s)" % (r, ans[9:300], thm), desc)
+            continue
+        bad = fmt.compare(d, r)
+        if bad:
+            first = sorted(bad)[0]
+            ctx.violation("%s:theorem-instance:%s" % (fmt.name, first),
+                          "%r reported where the header fields encode %r (theorem %s); all differences (encoded, reported): %r" % (
+                              bad[first][1], bad[first][0], thm, bad), desc)
     answers = ctx.driver.ask([q[0] for q in reqs]) if reqs else []
     for (line, k, r, impl, desc), ans in zip(reqs, answers):
         ctx.traces_validated += 1
